@@ -13,6 +13,7 @@ pub enum Scenario {
     W4(W4Scn),
     Shape(ShapeScn),
     Stat(crate::w3stat::StatScn),
+    W5(crate::w5::W5Scn),
     /// re-run of a whole statistical batch (C15 replay)
     StatBatch { property: String, verif_seed: u64, runs: u64 },
 }
@@ -36,6 +37,7 @@ impl Scenario {
             Scenario::W4(s) => &s.cfg.property,
             Scenario::Shape(s) => &s.property,
             Scenario::Stat(s) => &s.property,
+            Scenario::W5(s) => &s.property,
             Scenario::StatBatch { property, .. } => property,
         }
     }
@@ -45,6 +47,7 @@ impl Scenario {
             Scenario::W3(s) => crate::w3exec::execute(s),
             Scenario::Shape(s) => crate::w4probe::execute(s),
             Scenario::Stat(s) => crate::w3stat::execute(s),
+            Scenario::W5(s) => crate::w5::execute(s, run_dir),
             Scenario::StatBatch { property, verif_seed, runs } => crate::runner::stat_batch(property, *verif_seed, *runs),
             Scenario::W4(s) => match s.cfg.property.as_str() {
                 "C16" => crate::w4agents::execute_c16(s),
@@ -61,6 +64,7 @@ impl Scenario {
             Scenario::W4(s) => s.agents.len() + s.initial.len() + s.inject.len(),
             Scenario::Shape(_) => 0,
             Scenario::Stat(_) | Scenario::StatBatch { .. } => 0,
+            Scenario::W5(s) => s.calls.len(),
         }
     }
     /// scenario with list elements `keep[i] == false` removed
@@ -71,6 +75,11 @@ impl Scenario {
             Scenario::W4(s) => Scenario::W4(crate::shrink::w4_filtered(s, keep)),
             Scenario::Shape(s) => Scenario::Shape(s.clone()),
             Scenario::Stat(_) | Scenario::StatBatch { .. } => self.clone(),
+            Scenario::W5(s) => {
+                let mut n = s.clone();
+                n.calls = s.calls.iter().zip(keep.iter()).filter(|(_, k)| **k).map(|(c, _)| c.clone()).collect();
+                Scenario::W5(n)
+            }
         }
     }
     /// single-step simplifications (each candidate differs from self in one place)
@@ -91,6 +100,15 @@ impl Scenario {
                 out
             }
             Scenario::StatBatch { .. } => vec![],
+            Scenario::W5(s) => {
+                if s.second_hashseed {
+                    let mut n = s.clone();
+                    n.second_hashseed = false;
+                    vec![Scenario::W5(n)]
+                } else {
+                    vec![]
+                }
+            }
             Scenario::Shape(s) => {
                 let mut out = vec![];
                 if s.calls > 1 {
@@ -118,6 +136,7 @@ impl Scenario {
             }
             Scenario::Shape(_) => "W4-probe-agent-sets",
             Scenario::Stat(_) | Scenario::StatBatch { .. } => "W3-observable-batches",
+            Scenario::W5(_) => "W5-python",
             Scenario::W4(s) => {
                 if s.cfg.market {
                     "W4-agents-market-env"
